@@ -30,7 +30,7 @@ META = {
     "design_ref": "DESIGN.md §3 C30–C33 (C32)",
 }
 
-ENUMERATED = set()
+
 EVENTS = ("before_flush", "after_flush", "after_flush_postexec")
 
 
@@ -59,6 +59,40 @@ def verdict(o):
         diff = {t: (o["rerun_rows"][t], o["ref_rows"][t]) for t in o["ref_rows"] if o["rerun_rows"][t] != o["ref_rows"][t]}
         bad.append(("rerun-differs-from-failure-free-run", "%s" % diff))
     return bad
+
+
+def inserted_and_deleted(setup, work):
+    """does the transaction under test delete (directly, by cascade or as an orphan) an
+    instance it created itself?  (root cause of finding C35 instance-ends-transient-but-
+    logged-events-end-in-detached: _detach_states(to_transient) leaves _deleted set; the
+    snapshot restoration of a failed flush then trips over it)"""
+    from harness import lib_graph as G
+
+    W = G.World()
+    for rd in setup:
+        W.begin_round()
+        for m in rd["muts"]:
+            if m[0] not in ("poison", "flush"):
+                G._world_only(W, tuple(m))
+    before = set(W.objs)
+    renamed = {}
+    W.begin_round()
+    for m in work:
+        if m[0] in ("poison", "flush"):
+            continue
+        had = set(W.objs)
+        if m[0] == "rename" and m[1] not in before and m[1] in W.objs:
+            renamed[m[2]] = True
+        G._world_only(W, tuple(m))
+        gone = had - set(W.objs)
+        if m[0] == "rename":
+            if m[1] in before:
+                before.discard(m[1])
+                before.add(m[2])
+            continue
+        if any(l not in before for l in gone):
+            return True
+    return False
 
 
 def _worker(job):
@@ -100,7 +134,7 @@ def _worker(job):
                 o = G.fault_case(setup, w, ff)
             except RuntimeError:
                 continue
-            out.append((prof, setup, w, list(ff), nd, o.get("error"), verdict(o)))
+            out.append((prof, setup, w, list(ff), nd, o.get("error"), verdict(o), inserted_and_deleted(setup, w)))
     return out
 
 
@@ -108,19 +142,19 @@ def run_part_a(ctx, deep=False):
     import multiprocessing as mp
 
     thorough = ctx.tier == "thorough" or deep
-    jobs = [("C32:%d:%d:%s" % (ctx.seed, c, "deep" if deep else ctx.tier), 60 if thorough else 22, thorough) for c in range(24 if thorough else 8)]
+    jobs = [("C32:%d:%d:%s" % (ctx.seed, c, "deep" if deep else ctx.tier), 60 if thorough else 32, thorough) for c in range(24 if thorough else 8)]
     procs = int(os.environ.get("VERIF_PROCS", "6"))
     with mp.get_context("fork").Pool(min(procs, len(jobs))) as pool:
         res = pool.map(_worker, jobs, chunksize=1)
     for chunk in res:
-        for prof, setup, work, fault, nd, err, bad in chunk:
+        for prof, setup, work, fault, nd, err, bad, insdel in chunk:
             ctx.case((setup, work, fault), nontrivial=err is not None)
             ctx.count("A:profile=" + prof)
             ctx.count("A:fault=" + fault[0] + ("" if fault[0] != "event" else ":" + fault[1]))
             ctx.count("A:outcome=" + (err or "fault-position-not-reached"))
             ctx.count("A:flush-statements=%s" % ("1-3" if nd < 4 else "4-9" if nd < 10 else "10+"))
             if bad:
-                key = "c32-A:" + bad[0][0]
+                key = "c32-A:" + bad[0][0] + ("-after-instance-inserted-and-deleted-in-the-failed-transaction" if insdel else "")
                 ctx.count("oracle:" + key)
                 ctx.violation(key, {"part": "A", "setup": setup, "work": work, "fault": fault}, "; ".join("%s: %s" % b for b in bad)[:900])
             elif err and len(ctx.samples) < 4:
@@ -140,7 +174,27 @@ def jobs_b(ctx, deep=False):
 def evaluate_b(ctx, cases, label):
     from harness import lib_uow_check as K
 
-    K.evaluate(ctx, cases, label, "c32", ENUMERATED, never_catchall=())
+    K.evaluate(ctx, cases, label, "c32")
+
+
+def corpus(ctx):
+    """the known findings are replayed first"""
+    from harness import lib_graph as G
+
+    fn = os.path.join(os.path.dirname(os.path.dirname(os.path.dirname(os.path.abspath(__file__)))), "known_findings.d", "C32.json")
+    if not os.path.exists(fn):
+        return
+    for e in json.load(open(fn))["findings"]:
+        c = e.get("replay") or {}
+        if c.get("part") != "A":
+            continue
+        o = G.fault_case(c["setup"], c["work"], tuple(c["fault"]))
+        bad = verdict(o)
+        ctx.case(("corpus", c["work"], c["fault"]))
+        if bad:
+            key = "c32-A:" + bad[0][0] + ("-after-instance-inserted-and-deleted-in-the-failed-transaction" if inserted_and_deleted(c["setup"], c["work"]) else "")
+            ctx.count("oracle:" + key)
+            ctx.violation(key, c, "; ".join("%s: %s" % b for b in bad)[:900])
 
 
 def run(ctx, deep=False):
@@ -155,6 +209,7 @@ def run(ctx, deep=False):
     ctx.trusted.append("driver errors are simulated by raising from the before_cursor_execute event instead of executing the statement")
     ctx.trusted.append("harness/lib_graph.py World (intended graph) for the rerun comparison; SQLite foreign_keys=ON")
     ctx.assumptions.append("part A histories follow the discipline of harness/lib_graph.py; part B: one Session, one mapper, one integer primary key")
+    corpus(ctx)
     run_part_a(ctx, deep)
     cases = G.run_jobs(jobs_b(ctx, deep), int(os.environ.get("VERIF_PROCS", "6")))
     evaluate_b(ctx, cases, "generated")
